@@ -119,6 +119,13 @@ Theorem C17_remove_star_vertex_keeps_representation : forall thr (c : cplx) K (v
 Proof. exact remove_star_vertex_keeps_representation. Qed.
 Print Assumptions C17_remove_star_vertex_keeps_representation.
 
+(* non-vacuity of F: the full triangle 012 built by the transcribed operations represents the complex of the non-empty faces of
+   [0;1;2], which is closed, contains [0;1;2], [0], [0;1], and has no large blocker *)
+Example C17_representation_instance : represents full_triangle K_triangle /\ closed K_triangle /\
+  inc [0; 1; 2] /\ K_triangle [0; 1; 2] = true /\ no_big_blocker 3 full_triangle [0] /\ K_triangle [0] = true /\
+  no_big_blocker 3 full_triangle [0; 1] /\ K_triangle [0; 1] = true.
+Proof. exact full_triangle_represents. Qed.
+
 (* C. Edge contraction on the abstract complex (simplices as vertex sets): the image under b |-> a is closed under
    non-empty subsets; freeing the simplices blocked only through ab first (contract_edge without the link condition)
    gives the same image; the executable specification spec_contract lists exactly the images. *)
